@@ -1,10 +1,10 @@
 from props import P
 
 CFG = P(
-        harness=["harness/C07.cc", "harness/C07_r2.cc"], harness_deps=["harness/C07_model.hh", "harness/C07_ops.hh"], srcs=["Image.cc", "Strings.cc", "Filesystem.cc", "Process.cc", "Time.cc", "Encoding.cc"],
+        harness=["harness/C07.cc", "harness/C07_r2.cc", "harness/C07_r3.cc"], harness_deps=["harness/C07_model.hh", "harness/C07_ops.hh"], srcs=["Image.cc", "Strings.cc", "Filesystem.cc", "Process.cc", "Time.cc", "Encoding.cc"],
         oracle=None,
         flags=[], cxxflags=[], ldflags=[], harness_cxxflags=["-O2"],
-        deadline={"quick": 600, "thorough": 3600},
+        deadline={"quick": 2400, "thorough": 7200},
         rule="a rectangle/blit case is non-trivial when a non-empty rectangle is requested (extent > 0 on both axes, or negative = whole source) on non-empty dest and source canvases - "
              "whether clipping then leaves all, part or nothing of it; pixel-access, line, clipping-invariance, transform, history, call-pair and context cases are all non-trivial except transforms / "
              "assignments of empty canvases and draw_text of the empty string",
@@ -17,10 +17,17 @@ CFG = P(
                      "on canvases 1..3^2 x alpha x 4 widths with dash up to 2^63-1; draw_text per-pixel model: 3 canvases x alpha x 6 call forms x 3 backgrounds x all strings of <=2 of 9 characters x 24 positions; "
                      "transforms on canvases 0..4^2; all histories of <=2 of 20 operations; 130 object states: every ordered (destination, source) pair x 6 assignment forms, 8 unary forms; all shape-changing "
                      "histories of <=3 of 20 operations from 24 start shapes; 92 boundary calls: every ordered pair A;B and triple A;B;A, every call in 3 exception contexts; resize_blit (memory safety, rectangle bound); "
-                     "BitmapImage: pixel access, whole-image operations, write_row, copies between 25 states",
+                     "BitmapImage: pixel access, whole-image operations, write_row, copies between 25 states; "
+                     "LARGE canvases (round 3): 462 canvases whose row byte length is next to t in {b-1,b,b+1,b+3,2b-1,2b+1} for b in {256,4096,8192,65536} (the widths whose row is the last <= t and the first >= t; "
+                     "rgb 8-bit, rgba 8-bit, rgb 16-bit, rgba 32-bit, rgba 64-bit) x heights {1,2,3,5}, whose total size straddles 64 KiB and 1 MiB (height 7), and widths {1,3} x heights {255,256,257,4095,4097}, "
+                     "coordinate-coded content, x 51 operations (every whole-image operation, assignments and copies, fill_rect x6, 8 blit variants row for row + 4 from a larger source at an offset + interior columns, "
+                     "7 lines, corner pixel access, draw_text at three edges); draw_text of strings of {255,256,257,1023,1024,1025,4095,4096,4097} bytes; "
+                     "BitmapImage with row byte length next to {256,4096,65536} and their doubles x heights {1,2,3} x 10 operations",
             "thorough": "as quick with: fill_rect on every canvas 0..8^2; blit sizes {0,1,2,3}^4 x {rgba->rgba, rgb->rgb} with 9 mask-size combinations; sizes 4..8 swept one axis at a time; "
                         "clipping invariance on {0,1,2,5,8,13}^2; lines on every canvas 0..6^2; line overloads on canvases 1..4^2; text: 6 canvases, 64 positions, all 16 form/background combinations, strings of 3 "
-                        "characters on a reduced grid; histories of <=3 operations; shape histories of <=4 operations; 202 object states (dims 0..4)",
+                        "characters on a reduced grid; histories of <=3 operations; shape histories of <=4 operations; 202 object states (dims 0..4); "
+                        "large canvases: all 8 formats, row boundaries {256,1024,4096,8192,16384,32768,65536}, total-size canvases of heights 7 and 64, 10 blit variants with both calls (60 operations), "
+                        "text strings up to 65537 bytes; large bitmaps for row boundaries {256,1024,4096,8192,65536}",
         },
         explanation="E-ENUM over the real Image/BitmapImage methods on exact-size heap buffers under ASan; reference model = per-pixel canvas with a declaratively computed affected set "
                     "(no incremental clipping code), colour rules transcribed per variant, text layout transcribed from draw_text_v with the library's glyph table; histories are replayed from a fresh image "
@@ -39,6 +46,8 @@ CFG = P(
             "self-copy-assignment must keep the value (a copy equals its source); this fires on the pinned tree for Image and BitmapImage: proposed_fixes/C07-r2-1.diff, C07-r2-2.diff",
             "extreme coordinates are substituted one and two parameters at a time, not in all six positions simultaneously; magnitudes above 2^61 (where the library's own sums would overflow) are used only for direct pixel access; "
             "axis lines that start inside a dash gap longer than 65536 pixels are not executed",
+            "large canvases (round 3): on 16/32/64-bit canvases the colour-key, mask-image and custom_blit(uint64) variants are compared exactly (their rule is a plain copy / caller-supplied function at equal "
+            "channel widths); blit, blend_blit and custom_blit(uint32) stay geometry-only there as everywhere else",
             "BitmapImage (the monochrome canvas declared in Image.hh) is held to the same clauses: out_of_range outside, invert twice is the identity, copies are deep; padding bits of a row are not compared",
         ],
         engine="E-ENUM + E-BFS",
@@ -50,8 +59,9 @@ CFG = P(
                    "clipping invariance (draw on an enlarged canvas and crop), every line endpoint pair on canvases up to 6x6, every overload (uint32 colours, default alpha, width/height out-pointers), text against a "
                    "per-pixel model, transform identities, assignment between every ordered pair of object states (non-fresh destinations, self-assignment, moved-from objects), all operation histories up to "
                    "depth 2/3 over a 20-letter alphabet and shape-changing histories up to depth 3/4, and every ordered pair and A;B;A triple of 92 boundary calls (state carried between calls) are enumerated "
-                   "completely. Within these bounds the verdict is a coverage statement, not a sample.",
-        level_note="Trusted: the transcription of the per-variant colour rules and of the text layout (library-defined, see assumptions), the library's glyph table, std::function, libstdc++. Not covered: canvases larger than the "
-                   "stated sizes except through clipping invariance (up to 13x13 plus margins), simultaneous extreme values in more than two parameters, coordinates above 2^61 for rectangle operations, "
+                   "completely. Every whole-image operation and representatives of every other operation are also run on canvases whose row / total byte length straddles 256 B ... 64 KiB / 1 MiB "
+                   "(coordinate-coded content, per-pixel model). Within these bounds the verdict is a coverage statement, not a sample.",
+        level_note="Trusted: the transcription of the per-variant colour rules and of the text layout (library-defined, see assumptions), the library's glyph table, std::function, libstdc++. Not covered: the full rectangle-parameter product on canvases larger than the "
+                   "stated sizes (large canvases get a fixed list of representative calls; clipping invariance up to 13x13 plus margins), rows longer than 150 KB and canvases above 1 MiB, simultaneous extreme values in more than two parameters, coordinates above 2^61 for rectangle operations, "
                    "file loading/saving (other properties), the interpolation result of resize_blit.",
     )
